@@ -19,6 +19,8 @@ import common
 import langcheck
 import langengine as le
 import nsast
+import rndgen
+import runner
 
 
 def profiles(tier):
@@ -70,7 +72,29 @@ def run(tier):
                 if sk or pl.get("funs"):
                     skipped_programs += 1
                     skipped_stmts += len(sk)
+    # seeded random larger programs: plan run vs full run (differential, the property's own wording)
+    n = 1000 if tier == "quick" else 10000
+    base = common.seed() * 15485863
+    srcs = [nsast.render(rndgen.program(base + i))[0] for i in range(n)]
+    rres = runner.run_requests([{"id": i, "src": s, "modes": ["fn", "fp"], "ev": 4, "plan": True} for i, s in enumerate(srcs)], mode="prog", timeout=30)
+    so = langcheck.info()["runtime"]["Stack overflow"]
+    random_compared = 0
+    for i, src in enumerate(srcs):
+        fn, fp = rres.get(i, {}).get("fn", {}), rres.get(i, {}).get("fp", {})
+        bad = (None, "PANIC", "CRASH", "HANG", "parse_error", "static_error", so)
+        if fn.get("st") in bad or fp.get("st") in bad:
+            if fn.get("st") not in bad and fp.get("st") in ("PANIC", "CRASH"):
+                v.finding("plan-crash:%s" % le.core_key(src), "crash only with the plan: %s\n%s" % (fp.get("panic") or fp.get("crash"), src), {"source": src})
+            continue
+        random_compared += 1
+        a = (fn["st"], [nsast.impl_value(x) for x in fn.get("out", [])])
+        b = (fp["st"], [nsast.impl_value(x) for x in fp.get("out", [])])
+        if a != b:
+            v.finding("planvsfull:%s" % le.core_key(src), "with the plan: %s; executing every statement: %s\n%s" % (b, a, src), {"source": src, "with_plan": b, "without_plan": a})
+        if any(e.get("ev") == "stmt" and e.get("what") == "skip" for e in fp.get("events", [])):
+            skipped_programs += 1
     cov = tally.coverage(exhaustive=True)
+    cov["random_programs_compared_plan_vs_full"] = random_compared
     cov["programs_where_the_plan_skipped_something"] = skipped_programs
     cov["statements_skipped"] = skipped_stmts
     cov["unreachable_warnings_checked"] = unreachable_marked
